@@ -2,9 +2,10 @@
    binary_float stay the Coq inductive types. *)
 From Coq Require Import ZArith List.
 From Coq Require Extraction ExtrOcamlBasic.
-From CB Require Import Mach F64 ChronyFloat Gen Client Bound.
+From CB Require Import Mach F64 ChronyFloat Gen Client Bound Updater.
 Extraction Language OCaml.
 Separate Extraction Z.add Z.mul Z.opp Z.sub Z.div_eucl Z.of_nat Z.to_nat Z.of_N Z.to_N Z.compare
   Gen.pre Gen.post Gen.idx
   Client.compute_bound_at Client.growth Client.status_code Client.status_of_code
-  Bound.bound_of_words Bound.bound_of_words_signed Bound.classify Bound.stale_threshold.
+  Bound.bound_of_words Bound.bound_of_words_signed Bound.classify Bound.stale_threshold
+  Updater.urun Updater.u_init Updater.msg_class.
